@@ -5,9 +5,14 @@ updated component is the first least-advanced one or is reachable from it along 
 one needs (computed by composing the adapters' documented time shifts in pull order), has itself no lagging
 dependency, and the time computed for a link equals the time argument observed at the source output."""
 from . import sched_common as sc
-from .sched_common import (COQ_IMPORTS, COQ_CHECK, COQ_MODEL_OBS, TRUSTED, coq_case, coq_obs, run_impl,  # noqa: F401
-                           shrink_candidates, distribution)
+from .sched_common import (TRUSTED, coq_obs, run_impl, shrink_candidates, distribution)  # noqa: F401
 from . import c01
+
+# as for C01: dense compositions against FV.Sched and FV.SchedSparse, sparse publishers against FV.SchedSparse
+COQ_IMPORTS = c01.COQ_IMPORTS
+COQ_CHECK = c01.COQ_CHECK
+COQ_MODEL_OBS = c01.COQ_MODEL_OBS
+coq_case = sc.coq_case_c01
 
 ID = "C02"
 RULE = (
@@ -35,6 +40,8 @@ def generate(rng, tier):
             cases.append(sc.gen_ring(rng, sufficient=True))
         else:
             cases.append(sc.gen_ring(rng))
+    for _ in range(30 if tier == "quick" else 800):
+        cases.append(sc.gen_sparse(rng))
     return cases
 
 
@@ -52,14 +59,14 @@ def monitor(case, obs):
             todo = [c0]
             while todo:
                 c = todo.pop()
-                for s in tr.lagging_sources(c, sc.next_time_of(case, c, cnt, times), times):
+                for s in tr.lagging_sources(c, sc.next_time_of(case, c, cnt, times), tr.pubs):
                     if s not in reach:
                         reach.add(s)
                         todo.append(s)
             if u not in reach:
                 return (f"C{u} was updated (to {newt}) although it is neither the least advanced component C{c0} "
                         f"nor upstream of it along a chain of missing data (times {times})")
-            lag = tr.lagging_sources(u, sc.next_time_of(case, u, cnt, times), times)
+            lag = tr.lagging_sources(u, sc.next_time_of(case, u, cnt, times), tr.pubs)
             if lag:
                 return f"C{u} was updated (to {newt}) while its sources {sorted(set(lag))} still lack data it needs"
             if newt != sc.next_time_of(case, u, cnt, times):
